@@ -209,6 +209,7 @@ class FnSpec:
         self.hints = []      # (anchor, text)
         self.rename = None
         self.noauto = False
+        self.sig_only = False
 
 
 def _is_closure_start(toks, k):
@@ -423,6 +424,10 @@ def extract_fn(src, selector, spec):
         return text, lm, a, toks[end].end
     if contract:
         ed.ins(toks[body].start, contract + '\n', prio=-1)
+    if spec.sig_only:
+        ed.rep(toks[body].start, toks[end].end, '{ unimplemented!() }')
+        text, lm = apply_edits(src, a, toks[end].end, ed)
+        return text, lm, a, toks[end].end
     lo, hi = body + 1, end
     b = toks[end].end
 
@@ -684,6 +689,10 @@ def render(template_path, repo_root):
                     spec.nobody = True
                 elif head == 'noauto':
                     spec.noauto = True
+                elif head == 'sig-only':
+                    # for assumed (external_body) functions: only the signature is copied, the
+                    # body is replaced by `unimplemented!()` (it is not verified anyway)
+                    spec.sig_only = True
                 elif head == 'attr':
                     spec.attrs.append(rest)
                 elif head in ('requires', 'ensures', 'decreases'):
